@@ -474,6 +474,10 @@ def _dispatch(fn, truths, preds):
             if e.id in env:
                 return env[e.id]
             return None
+        if isinstance(e, ast.Compare) and len(e.ops) == 1 and isinstance(e.ops[0], (ast.Is, ast.IsNot)) and isinstance(e.comparators[0], ast.Constant) \
+                and e.comparators[0].value is None and isinstance(e.left, ast.Name) and e.left.id in env and isinstance(env[e.left.id], bool):
+            # locals hold "an object" (True) or None (False)
+            return env[e.left.id] if isinstance(e.ops[0], ast.IsNot) else (not env[e.left.id])
         if isinstance(e, ast.Compare):
             return None
         return None
@@ -495,6 +499,12 @@ def _dispatch(fn, truths, preds):
                 nm = st.targets[0].id
                 if isinstance(st.value, ast.Constant) and st.value.value is None:
                     env[nm] = False
+                elif isinstance(st.value, (ast.BoolOp, ast.UnaryOp, ast.Compare)) or (isinstance(st.value, ast.Call) and ast.unparse(st.value) in preds):
+                    v = ev(st.value)
+                    if v is not None:
+                        env[nm] = v
+                    else:
+                        env.pop(nm, None)
                 elif isinstance(st.value, ast.Call):
                     env[nm] = True
             elif isinstance(st, ast.Return) and isinstance(st.value, ast.Call):
@@ -606,8 +616,14 @@ def c05_9(ctx):
     spec = "tx:Tx.sig_hash_bip341"
     mod, fn = rl.get(ctx, spec)
     cfg = cfg_of(fn)
-    tests = [n for n in cfg.tests() if isinstance(n.ast, ast.Call) and call_name(n.ast) == "has_annex"]
-    texts = {ast.unparse(expand(fn, n.id, n.ast)) for n in tests}
+    tests = []
+    for n in cfg.tests():
+        ex = expand(fn, n.id, n.ast, depth=3)
+        if isinstance(ex, ast.Call) and call_name(ex) == "has_annex":
+            tests.append(n)
+    texts = {ast.unparse(expand(fn, n.id, n.ast, depth=3)) for n in tests}
+    if not tests:
+        return [ctx.err(spec, "no test of the annex predicate found", fn, mod)]
     if len(tests) >= 2 and len(texts) == 1:
         return [ctx.ok(spec, "spend_type and sha_annex are both controlled by `%s`" % texts.pop(), fn, mod, key="annex-pred")]
     if len(tests) == 1:
